@@ -154,8 +154,28 @@ def write_rows(path, rows):
             f.write(json.dumps(r, separators=(",", ":")) + "\n")
 
 
+FACTORY_DEFECT = "plugin type expected"
+
+
+def drop_failed_factory_runs(v, pid, rows):
+    """Runs in which the config-decoded schedule FACTORY failed on its second product (rps-per-instance with a
+    list profile; pluginconfig.parseConf deletes `type` from the caller's nested map: DESIGN 5 #19, C18's subject)
+    are not normal operation: instance creation failed, which C12 lists as a legitimate cut-short reason and C03
+    does not speak about.  They are reported under a fixed signature (a known finding) and left out of the
+    trace validation; every other run that ends with an error stays in and is a violation there."""
+    bad = {r["run"] for r in rows if r["ev"] == "end" and FACTORY_DEFECT in r["err"]}
+    for run in sorted(bad)[:1]:
+        conf = next(r for r in rows if r["ev"] == "conf" and r["run"] == run)
+        end = next(r for r in rows if r["ev"] == "end" and r["run"] == run)
+        v.violation("pool run failed: rps-per-instance schedule factory second product: plugin type expected",
+                    "Engine.Run returned %r: with rps-per-instance the 2nd instance cannot be created from a list "
+                    "profile decoded from a viper-shaped config [%s] (%d such runs)" % (end["err"][:300], conf["desc"], len(bad)))
+    return [r for r in rows if r["run"] not in bad], len(bad)
+
+
 def validate_parallel(v, pid, rows, d, tag, chunk_lines=60000, par=4):
     """Split at run boundaries into chunks, one TLC each, a few at a time."""
+    rows, _ = drop_failed_factory_runs(v, pid, rows)
     chunks, cur = [], []
     for run, rr in sorted(_run_rows(rows).items()):
         if cur and len(cur) + len(rr) > chunk_lines:
